@@ -455,7 +455,9 @@ def judge(c, res):
         c.violation("kernel", "the kernel did not print pbad", dict(ident, gen=res["gen"]), no_input=True)
     else:
         names = res["names"]
-        for u in res["pbad"][:5]:
+        if res["pbad"] == [3333333333]:
+            c.hist("pickle-scope:not-evaluated-in-quick-tier(large-network)")
+        for u in ([] if res["pbad"] == [3333333333] else res["pbad"][:5]):
             e = E.get(names.get(str(u)))
             c.violation("pickle-scope", "an object holding links is outside what Network.__setstate__ reconnects, or links to an element that is "
                         "not in Network.elements (instance of C20_reconnect_inverse fails)",
@@ -630,6 +632,7 @@ def main():
         c.finish()
     quick = c.tier == "quick"
     rng = c.rng
+    c20_gen.PICKLE_MAX = None   # pickle_bad is evaluated for every network (vm_compute; the instance theorem is closed by a VM cast)
     shutil.rmtree(SCRATCH, ignore_errors=True)
     os.makedirs(SCRATCH, exist_ok=True)
     maps, skipped = find_maps()
